@@ -916,9 +916,18 @@ def ml_gmm_m_step(
     #      = 1/n * sum (Pxx) - mean^2
     if update_variances:
         logger.debug("Update variances.")
-        machine.variances = statistics.sum_pxx / thresholded_n[
-            :, None
-        ] - np.power(machine.means, 2)
+        if update_means:
+            machine.variances = statistics.sum_pxx / thresholded_n[
+                :, None
+            ] - np.power(machine.means, 2)
+        else:
+            # The means were not re-estimated: the shortcut above is only valid
+            # for mean = sum_px / n. Use the general second central moment
+            #  var = 1/n * sum (P(x-mean)(x-mean))
+            #      = 1/n * (sum (Pxx) - 2 * mean * sum (Px)) + mean^2
+            machine.variances = (
+                statistics.sum_pxx - 2 * machine.means * statistics.sum_px
+            ) / thresholded_n[:, None] + np.power(machine.means, 2)
 
 
 def map_gmm_m_step(
